@@ -28,4 +28,11 @@ void vk_check_range(const void* p, size_t n);
 #ifdef __cplusplus
 }
 #endif
+
+// callback of the (guarded) verification hook in async_mutex::unlock(): "The mutex must be in locked state" (its documented precondition)
+#ifdef __cplusplus
+extern "C" { __attribute__((used)) inline void boost_mqtt5_verif_mutex_unlock(bool locked) {
+  vk_assert(locked, "async_mutex::unlock() was called while the mutex is not locked: the connection lock was released by someone who did not hold it");
+} }
+#endif
 #endif
